@@ -16,7 +16,9 @@ ERRNO = _Errno({"ENOENT": 2, "EACCES": 13, "E2BIG": 7, "ENOEXEC": 8, "ENOMEM": 1
 DSMAX = {"default": 2047, "min": 255, "max": 1048575}
 LOGMAX = {"default": 16383, "min": 255, "max": 1048575}
 FMT = {"static": b"static text", "cmdfile": b"%{filename}|%{cmdline}|end", "cmd": b"%{cmdline}", "empty": b"",
-       "unknown": b"a%{nosuch}b", "tid": b"t=%{tid} n=%{snoopy_threads}"}
+       "unknown": b"a%{nosuch}b", "tid": b"t=%{tid} n=%{snoopy_threads}",
+       "heavy": (b"%{cgroup:0}|%{cgroup:name=systemd}|%{cgroup:nosuch}|%{systemd_unit_name}|%{rpname}|%{tty}|%{tty_username}|%{login}|%{username}|%{egroup}|%{cwd}|"
+                 b"%{hostname}|%{datetime}|%{env_all}|%{ipaddr}|%{domain}|%{cmdline}")}
 CHAIN = {"pass": b"only_uid:0", "drop": b"exclude_uid:0", "bogus": b"nosuchfilter:1", "pass;pass": b"only_uid:0;only_root",
          "bogus;pass": b"nosuchfilter;only_root", "empty-elems": b";;only_root;", "pass;drop": b"only_root;exclude_uid:0",
          "drop;pass": b"exclude_uid:0;only_root", "drop;bogus": b"exclude_uid:0;nosuch"}
@@ -510,7 +512,12 @@ def build_script_hist(ctx, items, snap=True):
     return s
 
 
-def run_hist(build, items, workdir, workers=None, timeout=900):
+def bigcgroup_wrap(ctx):
+    """command prefix: run in a process whose /proc/<pid>/cgroup is larger than 10 KB (harness/bigcgroup.sh)"""
+    return ["unshare", "-m", "--propagation", "private", os.path.join(c.VERIF, "harness/bigcgroup.sh"), ctx.w, "3", "19", "--"]
+
+
+def run_hist(build, items, workdir, workers=None, timeout=900, wrap=None):
     workers = workers or c.NCPU
     batches = [items[i::workers] for i in range(workers)]
     batches = [b for b in batches if b]
@@ -527,6 +534,8 @@ def run_hist(build, items, workdir, workers=None, timeout=900):
         pre = ":".join([build["lib"], os.path.join(c.BUILD, "librec.so")])
         ini = os.path.join(ctx.etc, "snoopy.ini") if par else build["ini"]
         cmd = ["env", "LD_PRELOAD=" + pre, "XDRV_INI=" + ini, os.path.join(c.BUILD, "xdrv"), sp, op]
+        if wrap:
+            cmd = wrap(ctx) + cmd
         env = {"PATH": "/usr/sbin:/usr/bin:/sbin:/bin", "HOME": "/root", "LANG": "C", "TZ": "UTC"}
         try:
             rc = subprocess.run(cmd, env=env, capture_output=True, timeout=timeout, stdin=subprocess.DEVNULL, cwd=ctx.w).returncode
@@ -546,7 +555,7 @@ def run_hist(build, items, workdir, workers=None, timeout=900):
             outs = list(ex.map(one, range(len(batches))))
     else:
         outs = [one(i) for i in range(len(batches))]
-    obs = {}
+    obs = {"_rcs": [rc for rc, _ in outs]}
     for i, (rc, evs) in enumerate(outs):
         item, env = None, None
         for e in evs:
